@@ -419,30 +419,72 @@ fn check_search(idx: &Idx, m: &TfsModel, words: &[usize], repeat: bool, all_k: b
     let full = idx.search(&qs, BIG_K, None);
     *evals += 1;
     check_list(&what, &qs, &full, &want, BIG_K, m, &ts)?;
-    // identical repeat: for <= 2 words only. With >= 3 words the crate sums the
-    // per-token scores in the iteration order of a randomly seeded HashMap, so
-    // the last bit of a score may legitimately(?) vary from call to call; that
-    // is reported in the notes, not checked here, to keep the verdict deterministic.
-    if repeat && words.len() <= 2 {
-        let again = idx.search(&qs, BIG_K, None);
-        *evals += 1;
-        if bits(&again) != bits(&full) {
-            return Err(Fail::new(format!("{what}:repeat"), format!("query {qs:?}: {full:?} then {again:?}")));
+    // identical repeat. With >= 3 words the crate adds the per-token scores in
+    // the iteration order of a randomly seeded HashMap (collect_tokens), so a
+    // difference there is classified as that one root cause.
+    if repeat {
+        let reps = if words.len() <= 2 { 1 } else { 8 };
+        for _ in 0..reps {
+            let again = idx.search(&qs, BIG_K, None);
+            *evals += 1;
+            if bits(&again) != bits(&full) {
+                let kind = if words.len() <= 2 {
+                    format!("{what}:repeat")
+                } else {
+                    "search:multiword-repeat-hash-order".to_string()
+                };
+                return Err(Fail::new(kind, format!("query {qs:?}: {full:?} then {again:?}")));
+            }
         }
-        if all_k {
-            for k in 0..=m.docs.len() + 1 {
-                let top = idx.search(&qs, k, None);
-                *evals += 1;
-                if bits(&top) != bits(&full[..k.min(full.len())]) {
-                    return Err(Fail::new(
-                        format!("{what}:top-k-prefix"),
-                        format!("query {qs:?}: top-{k} {top:?} vs full {full:?}"),
-                    ));
-                }
+    }
+    if all_k && words.len() <= 2 {
+        for k in 0..=m.docs.len() + 1 {
+            let top = idx.search(&qs, k, None);
+            *evals += 1;
+            if bits(&top) != bits(&full[..k.min(full.len())]) {
+                return Err(Fail::new(
+                    format!("{what}:top-k-prefix"),
+                    format!("query {qs:?}: top-{k} {top:?} vs full {full:?}"),
+                ));
             }
         }
     }
     Ok(())
+}
+
+pub const SIG_HASH_ORDER: &str = "C11/multiword-search-score-depends-on-hash-order";
+
+/// Fixed scenario outside the 1-3 token universe: six documents (one with five
+/// tokens), one 4-word plain query repeated `repeats` times on ONE index
+/// instance; every repeat must return the bit-identical list.
+/// Returns (evaluations, Some((summary, replay))) when two repeats differ.
+pub fn multiword_repeat_scenario(repeats: usize) -> (u64, Option<(String, serde_json::Value)>) {
+    let docs = [
+        "beta gamma delta",
+        "alpha alpha beta",
+        "delta alpha",
+        "alpha beta gamma delta delta",
+        "gamma",
+        "beta beta beta gamma alpha",
+    ];
+    let query = "alpha beta gamma delta";
+    let idx = BM25Index::new("vindex".to_string(), default_tokenizer(), None);
+    for (i, d) in docs.iter().enumerate() {
+        idx.insert(i as u64 + 1, d, 1).expect("scenario insert");
+    }
+    let first = idx.search(query, BIG_K, None);
+    for r in 1..repeats {
+        let again = idx.search(query, BIG_K, None);
+        if bits(&again) != bits(&first) {
+            let summary = format!(
+                "C11 hist scenario multiword-repeat: search({query:?}) on one index instance returned {first:?}, then (repeat {r}) {again:?}: \
+                 score_term adds the per-token scores in the iteration order of a randomly seeded std HashMap"
+            );
+            let replay = serde_json::json!({"scenario": "multiword-repeat", "docs": docs, "query": query, "repeats": repeats});
+            return (r as u64 + 1, Some((summary, replay)));
+        }
+    }
+    (repeats as u64, None)
 }
 
 impl Sut for Tfs {
@@ -656,8 +698,9 @@ impl Sut for Tfs {
                 check_search(idx, m, &[a, b], true, true, evals)?;
             }
         }
-        check_search(idx, m, &[0, 1, 2], false, false, evals)?;
-        check_search(idx, m, &[3, 2, 0], false, false, evals)?;
+        check_search(idx, m, &[0, 1, 2], true, false, evals)?;
+        check_search(idx, m, &[3, 2, 1], true, false, evals)?;
+        check_search(idx, m, &[0, 1, 2, 3], true, false, evals)?;
         let t2 = q_trees(2);
         // every depth<=2 tree, default parameters, repeat + every k
         for q in &t2 {
@@ -716,8 +759,13 @@ impl Sut for Tfs {
     }
 
     fn canonical_signature(kind: &str) -> Option<String> {
-        kind.contains("stale-posting-of-reinserted-id")
-            .then(|| "C11/stale-posting-of-reinserted-id".to_string())
+        if kind.contains("stale-posting-of-reinserted-id") {
+            Some("C11/stale-posting-of-reinserted-id".to_string())
+        } else if kind.contains("multiword-repeat-hash-order") {
+            Some(SIG_HASH_ORDER.to_string())
+        } else {
+            None
+        }
     }
 
     fn to_legacy(_cfg: &TfsCfg, store: &Store) -> Option<Store> {
